@@ -13,7 +13,11 @@ V = "/verif"
 # seeded changes whose own property check stays quiet because what breaks lies in a sibling property's domain
 # (index bases -> C19, unequal allocators -> C10): the sibling's quick check is run as well
 SIBLINGS = {"C01-r2-1": ["C19"], "C05-r2-1": ["C19"], "C06-r2-1": ["C19"], "C08-r2-1": ["C10"],
-            "C03-r3-2": ["C07"], "C11-r3-2": ["C09"], "C20-r3-2": ["C09"]}
+            "C03-r3-2": ["C07"], "C11-r3-2": ["C09"], "C20-r3-2": ["C09"],
+            "C04-r4-2": ["C10"], "C05-r4-2": ["C02"], "C06-r4-2": ["C10"], "C08-r4-2": ["C06"]}
+# seeded changes whose demonstration lies outside the library's documented domain (not demanded of any check)
+OUT_OF_DOMAIN = {"C08-r4-1": "the change only manifests when an array is assigned a view of ITSELF (A = A({1,4},{2,5})); the README documents "
+                             "assignment with overlapping right- and left-hand sides as undefined behaviour ('Copy and assignment (and aliasing)')"}
 ids = sys.argv[1:] or sorted(os.listdir(os.path.join(V, "seeded")))
 for sid in ids:
     d = os.path.join(V, "seeded", sid)
@@ -57,6 +61,8 @@ for sid in ids:
             if q.returncode == 1:
                 meta["detected_by"].append(sib)
         meta["detected"] = bool(meta["detected_by"])
+    if sid in OUT_OF_DOMAIN:
+        meta["out_of_documented_domain"] = OUT_OF_DOMAIN[sid]
     with open(os.path.join(d, "meta.json"), "w") as f:
         json.dump(meta, f, indent=1)
     shutil.rmtree(scratch, ignore_errors=True)
